@@ -39,6 +39,9 @@ func genScenario(r *rand.Rand, withClone bool) string {
 	if !withClone && r.Intn(12) == 0 {
 		return genWide(r)
 	}
+	if !withClone && r.Intn(12) == 0 {
+		return genTmoRace(r)
+	}
 	tmo := []int{0, 0, 2}[r.Intn(3)]
 	acts := []string{fmt.Sprintf("ps %d %d", tmo, r.Intn(2))}
 	nextChan, nextVal, nextPub, nextUnsub, nextAll, nextClone := 0, 1, 0, 0, 0, 1
@@ -260,6 +263,20 @@ func genWide(r *rand.Rand) string {
 			nextUnsub++
 		}
 		acts = append(acts, "wait")
+	}
+	return strings.Join(acts, ";")
+}
+
+// genTmoRace: unbuffered subscribers, PubTimeoutAfter = 5 ms, synchronous publishes whose receiver becomes willing at about the moment the
+// timer fires (the scenario actions themselves cost 1.5-2 ms): whichever wins, the (event, subscriber) pair ends in exactly one of a delivery or one timeout callback
+func genTmoRace(r *rand.Rand) string {
+	acts := []string{"ps 5 0"}
+	for p := 0; p < 12; p++ {
+		// a fresh subscriber per trial (an allowance left over from a trial that timed out would hand the next event over at once)
+		variant := []string{"pubsync", "pubwait", "pubslicesync"}[r.Intn(3)]
+		acts = append(acts, fmt.Sprintf("sub %d 0", p), "wait")
+		acts = append(acts, fmt.Sprintf("pub %d 0 %s %d", p, variant, p+1), fmt.Sprintf("nap %d", 2400+r.Intn(1200)), fmt.Sprintf("allow %d 1", p), "wait",
+			fmt.Sprintf("unsub %d 0 %d", p, p), "wait")
 	}
 	return strings.Join(acts, ";")
 }
@@ -640,6 +657,8 @@ func pubsubChild(args []string) int {
 				p.omu.Unlock()
 				close(p.cready[w])
 			})
+		case "nap": // nap <microseconds>
+			time.Sleep(time.Duration(atoi(f[1])) * time.Microsecond)
 		case "wait": // let everything settle: the calls spawned so far have logged their invocation and returned or blocked
 			for i := 0; i < 50 && atomic.LoadInt64(&p.pending) > 0; i++ {
 				time.Sleep(200 * time.Microsecond)
